@@ -144,7 +144,7 @@ def generate(R, tier):
             "rng": {"kind": R.choice(["Generator", "RandomState"]), "seed": R.randrange(1 << 30),
                     "script": ([] if R.random() < 0.6 else [{"method": "shuffle", "mode": R.choice(["identity", "reverse", "rotate"])}])},
             "ndset": {"wt": R.choice([1.0, 1.0, -1.0, 0.5, -2.0]), "kind": R.choice(["negsum", "negsum", "column", "spread"]), "col": R.randint(0, 2)},
-            "mo_wt": [R.choice([1.0, 1.0, -1.0, 2.5, 0.5]) for _ in range(8)],
+            "mo_wt": [R.choice([1.0, 1.0, -1.0, 2.5, 0.5]) for _ in range(8)], "so_wt": R.choice([1.0, 1.0, 1.0, -1.0, 2.0, -0.5]),
             "perm": R.randrange(1 << 30), "ngen": R.randint(1, 3), "pop": R.choice([6, 8]), "unique_parents": R.random() < 0.7}
 
 
@@ -216,7 +216,7 @@ def _protocol(sc, g, ntr):
         mo = True
     else:
         algo = SortingSubsetOptimizationAlgorithm() if (enc == "subset" and sc["exact"]) else SO[enc](ngen=sc["ngen"], pop_size=sc["pop"])
-        kw.update(nobj=1, obj_wt=numpy.array([1.0]), obj_trans=_sumtr, soalgo=algo)
+        kw.update(nobj=1, obj_wt=numpy.array([float(sc.get("so_wt", 1.0))]), obj_trans=_sumtr, soalgo=algo)
         mo = False
     return cls, kw, mo
 
@@ -408,6 +408,9 @@ def execute(sc):
         else:
             crit = _weighted_gebv(pg, gm, 0.5 if fam == "wgs" else sc.get("alpha", 0.5))
         k = len(decn)
+        if float(sc.get("so_wt", 1.0)) < 0:
+            crit = -crit                           # a negative objective weight declares the criterion as one to be minimised
+            faults["criterion_minimised"] = 1
         srt = numpy.sort(crit)[::-1]
         if k < nt and abs(srt[k - 1] - srt[k]) < 1e-9:
             probes["criterion_tie_skipped"] = 1
